@@ -1,7 +1,7 @@
 """Serialization/deserialization of tasks to/from JSON."""
 
 from dataclasses import fields
-from enum import Enum
+from enum import Enum, Flag
 from typing import Optional, Type, Union, cast
 
 from frozendict import frozendict
@@ -99,15 +99,36 @@ class Serializer:
         return isinstance(serialized, dict) and bool(serialized.get('_is_enum', False))
 
     def serialize_enum(self, value: Enum) -> jsonable:
+        name = value.name
+        if name is None and isinstance(value, Flag):
+            # Flag values without a name (e.g. an empty flag) would
+            # otherwise all be serialized alike, so identify them by
+            # their value instead.
+            name = str(value.value)
         return {
             '_is_enum': True,
             '__class__': self.serialize_class(value.__class__),
-            'name': value.name,
+            'name': name,
         }
 
     def deserialize_enum(self, serialized: dict[str, jsonable]) -> Enum:
         enum_cls = self.deserialize_class(serialized['__class__'])
-        return enum_cls[serialized['name']]
+        name = serialized['name']
+        try:
+            return enum_cls[name]
+        except KeyError:
+            if not (isinstance(name, str) and issubclass(enum_cls, Flag)):
+                raise
+            # A combination of flags is named after its parts
+            # (e.g. 'R|W'), where a part without a name is given by
+            # its value (e.g. 'R|8').
+            try:
+                combination = enum_cls(0)
+                for part in name.split('|'):
+                    combination |= enum_cls[part] if part in enum_cls.__members__ else enum_cls(int(part))
+            except ValueError:
+                raise KeyError(name) from None
+            return combination
 
     def serialize_class(self, cls: Type) -> jsonable:
         return f'{cls.__module__}.{cls.__qualname__}'
